@@ -331,6 +331,31 @@ func checkC10(p *Prog, r *Report) {
 							c, _, ok := p.ResolveCall(run, ft.X)
 							return ok && p.CalleeName(c) == "taskloop.Loop.Err"
 						})
+						// the same test spelled out: the default arm of a select whose other arm receives from
+						// the closed channel and returns the error
+						first = first || factListHas(p.DominatingFactList(run, snd), func(ft Fact) bool {
+							sel, isSel := ft.Stmt.(*ast.SelectStmt)
+							if ft.Op != "default" || !ft.Val || !isSel || len(sel.Body.List) != 2 {
+								return false
+							}
+							for _, cl := range sel.Body.List {
+								cc := cl.(*ast.CommClause)
+								if cc.Comm == nil {
+									continue
+								}
+								es, isE := cc.Comm.(*ast.ExprStmt)
+								if !isE {
+									return false
+								}
+								u, isU := unparen(es.X).(*ast.UnaryExpr)
+								if !isU || u.Op != token.ARROW || !p.IsField(u.X, "taskloop.Loop.done") || len(cc.Body) == 0 {
+									return false
+								}
+								rs, isR := cc.Body[len(cc.Body)-1].(*ast.ReturnStmt)
+								return isR && len(rs.Results) == 1 && !p.isNilExpr(rs.Results[0])
+							}
+							return false
+						})
 					}
 					return true
 				})
